@@ -93,6 +93,7 @@ let run_case (c : case) =
   let os = match o with
     | F.Exit n -> "E" ^ string_of_int (int_of_n n)
     | F.Killed F.SIGINT -> "KINT" | F.Killed F.SIGTERM -> "KTERM" | F.Killed F.SIGKILL -> "KKILL"
+    | F.Killed F.SIGXFSZ -> "KXFSZ" | F.Killed F.SIGPIPE -> "KPIPE"
     | F.Hang -> "HANG" in
   Printf.printf "RESULT %s %s\n" c.id os;
   List.iter (fun (cl, t) ->
